@@ -307,6 +307,26 @@ func (a *fpAnalysis) analyse(entry *ssa.Function) (writes []fpWrite, reads []str
 	for _, g := range a.globals {
 		tainted[g] = true
 	}
+	// locations (identified by the root of their address) into which a tainted value has been stored: loads through them yield
+	// tainted values again, so that taint survives a round trip through a local variable, a fresh struct or a local map
+	holder := map[ssa.Value]bool{}
+	root := func(v ssa.Value) ssa.Value {
+		for i := 0; i < 32; i++ {
+			switch x := v.(type) {
+			case *ssa.FieldAddr:
+				v = x.X
+			case *ssa.IndexAddr:
+				v = x.X
+			case *ssa.Slice:
+				v = x.X
+			case *ssa.ChangeType:
+				v = x.X
+			default:
+				return v
+			}
+		}
+		return v
+	}
 	changed := true
 	taint := func(v ssa.Value) {
 		if !tainted[v] {
@@ -341,15 +361,29 @@ func (a *fpAnalysis) analyse(entry *ssa.Function) (writes []fpWrite, reads []str
 							taint(x)
 						}
 					case *ssa.Lookup:
-						if tainted[x.X] && fpPointerLike(x.Type()) {
+						if (tainted[x.X] || holder[root(x.X)]) && fpPointerLike(x.Type()) {
 							taint(x)
 						}
 					case *ssa.Slice:
 						if tainted[x.X] {
 							taint(x)
 						}
+					case *ssa.Store:
+						if tainted[x.Val] && fpPointerLike(x.Val.Type()) {
+							if r := root(x.Addr); !holder[r] {
+								holder[r] = true
+								changed = true
+							}
+						}
+					case *ssa.MapUpdate:
+						if (tainted[x.Value] && fpPointerLike(x.Value.Type())) || (tainted[x.Key] && fpPointerLike(x.Key.Type())) {
+							if r := root(x.Map); !holder[r] {
+								holder[r] = true
+								changed = true
+							}
+						}
 					case *ssa.UnOp:
-						if x.Op == token.MUL && tainted[x.X] && fpPointerLike(x.Type()) {
+						if x.Op == token.MUL && (tainted[x.X] || holder[root(x.X)]) && fpPointerLike(x.Type()) {
 							taint(x)
 						}
 						if x.Op == token.ARROW && tainted[x.X] && fpPointerLike(x.Type()) {
